@@ -611,6 +611,11 @@ func ZZHarnessCompact() {
 		}
 	}
 	cands = append(cands, rc)
+	// fresh honest messages of the current round from the member that has not spoken yet
+	vroot, _ := zzHashDataRoot(value)
+	late := oth[len(oth)-1]
+	cands = append(cands, zzHonest(late, a.msg(specqbft.PrepareMsgType, 1, vroot), nil))
+	cands = append(cands, zzHonest(late, a.msg(specqbft.CommitMsgType, 1, vroot), nil))
 	// the compaction trigger: a round-change message processed by both; only b is compacted afterwards
 	_, _, _, ta := a.inst.ProcessMsg(a.lg, zzCopyMsg(rc))
 	_, _, _, tb := b.inst.ProcessMsg(b.lg, zzCopyMsg(rc))
